@@ -70,8 +70,15 @@ int main(int argc, char **argv) { char w[64] = {0}, s[64] = {0}; int nw = atoi(a
 def job_wild_safety():
     ex = wild_extract()
     info = dict(ex.info(), name='wildcmp(const char*, const char*)', route='CCV (C mode, loop contracts inserted after the three while headers)', dropped='namespaces only')
+    # the invariants speak about the two back-track pointers by ROLE, not by name: the local that is set to the pattern position after a '*'
+    # and the local that is set to string + 1 (a rename of these locals must not make the proof fail)
+    clean = ccv.strip_map(ex.body)
+    m_mp, m_cp = re.search(r'\b(\w+)\s*=\s*wild\s*;', clean), re.search(r'\b(\w+)\s*=\s*string\s*\+\s*1\s*;', clean)
+    if not m_mp or not m_cp:
+        raise core.Undecided('extraction drift: the back-track pointers of wildcmp (x = wild; y = string + 1;) were not found')
     for k in range(3):
-        ccv.insert_loop_contract(ex, k, open(os.path.join(CDIR, 'wildcmp.loop%d.inv' % k)).read(), kind='while')
+        inv = open(os.path.join(CDIR, 'wildcmp.loop%d.inv' % k)).read().replace('@MP@', m_mp.group(1)).replace('@CP@', m_cp.group(1))
+        ccv.insert_loop_contract(ex, k, inv, kind='while')
     tu = open(os.path.join(CDIR, 'wildcmp_safety.h')).read() + '\nint wildcmp(const char *wild, const char *string)\n{' + ex.body + '}\n' + open(os.path.join(CDIR, 'wildcmp_safety_harness.c')).read()
     obs = ccv.build_and_check('C18.wildcmp.safety', 'wildcmp', {'w.c': tu}, 'h_safe', loops=True, defines=['VERIF_MAXLEN=1000'], timeout=900,
                               need=['loop-invariant', 'loop-decreases', 'pointer'], route_note='memory safety and termination for all string lengths <= 1000 by loop contracts')
